@@ -5,9 +5,24 @@ encodings, hashing and sampling.
 import JediVerif.Driver.Judge2
 import JediVerif.Impl.Wnaf
 import JediVerif.Impl.Encode
+import JediVerif.Impl.Miller
 
 namespace Jedi.Driver
 open Jedi.Impl
+
+/-- the library's constant tables (stored in Montgomery form) as field elements, for the generated code -/
+def unmontC (x : Nat) : Fq := Fin.ofNat q x * fqRinv
+def unmontC2 (p : Nat × Nat) : Fq2 := ⟨unmontC p.1, unmontC p.2⟩
+open Jedi.Gen in
+instance : TowerConsts Fq where
+  fq2_frobenius_coeff i := unmontC (Consts.fq2_frobenius_coeff.getD i 0)
+  fq6_frobenius_coeff_c1 i := unmontC2 (Consts.fq6_frobenius_coeff_c1.getD i (0, 0))
+  fq6_frobenius_coeff_c2 i := unmontC2 (Consts.fq6_frobenius_coeff_c2.getD i (0, 0))
+  fq12_frobenius_coeff_c1 i := unmontC2 (Consts.fq12_frobenius_coeff_c1.getD i (0, 0))
+  g1_endomorphism_beta := unmontC Consts.g1_endomorphism_beta
+  uplusonetotheqminusoneoversix := unmontC2 Consts.uplusonetotheqminusoneoversix
+
+def affOf {F : Type} (a : F × F × Bool) : Aff F := ⟨a.1, a.2.1, a.2.2⟩
 
 def ptG1 (a : Fq × Fq × Bool) : G1Pt := affPt a
 def ptG2 (a : Fq2 × Fq2 × Bool) : G2Pt := affPt a
@@ -102,7 +117,12 @@ def judgeMisc (op : String) (out : List String) : P Bool := do
   | "gt_exp" | "gt_expnd" =>
     let s ← nextHex; let k ← nextHex; let _ ← next
     let a := npow gtGen (s % r)
-    expectToks op (strQ12 a ++ strQ12 (npow a (k % r))) out; pure true
+    expectToks op (strQ12 a ++ strQ12 (npow a (k % r))) out
+    -- the model of the loop (generated Frobenius / cyclotomic squaring, hand-written interleaving) must agree too
+    if op == "gt_exp" then
+      let m := Impl.exponentiateGt a (xadic k)
+      if m != npow a (k % r) then throw "gt_exp: Impl model of exponentiate_gt differs from a^k"
+    pure true
   | "gt_ops" =>
     let s ← nextHex; let t ← nextHex
     let a := npow gtGen (s % r); let b := npow gtGen (t % r)
@@ -126,7 +146,11 @@ def judgeMisc (op : String) (out : List String) : P Bool := do
     pure true
   | "pairing" | "pairing_prep" =>
     let p ← curveG1.rdA; let qq ← curveG2.rdA
-    expectToks op (strQ12 (ateSpec (ptG1 p) (ptG2 qq))) out; pure true
+    expectToks op (strQ12 (ateSpec (ptG1 p) (ptG2 qq))) out
+    -- and the model regenerated from pairing.cpp (steps, line evaluation, final exponentiation) must produce the same value
+    let m := if op == "pairing" then Impl.pairing (affOf p) (affOf qq) else Impl.pairingPrepared (affOf p) (Impl.prepare (affOf qq))
+    expectToks (op ++ " (generated model)") (strQ12 m) out
+    pure true
   | "miller" =>
     -- the Miller value is only defined up to factors the final exponent kills: compare after exponentiation
     let p ← curveG1.rdA; let qq ← curveG2.rdA
@@ -134,26 +158,44 @@ def judgeMisc (op : String) (out : List String) : P Bool := do
     let expected := ateSpec (ptG1 p) (ptG2 qq)
     let got := if (ptG1 p) == .inf || (ptG2 qq) == .inf then f else npow f finalExponent
     if got != expected then throw "miller: (miller value)^(final exponent) differs from the Spec pairing"
+    -- the generated model must reproduce the Miller value exactly
+    expectToks "miller (generated model)" (strQ12 (Impl.millerLoop [(affOf p, affOf qq)] [])) out
     pure true
   | "fexp" =>
     let a ← nextFq12; let _ ← next
     if a == 0 then pure true else
-    expectToks op (strQ12 (npow a finalExponent)) out; pure true
+    expectToks op (strQ12 (npow a finalExponent)) out
+    expectToks "fexp (generated model)" (strQ12 (Gen.final_exponentiation a)) out
+    pure true
   | "expx" =>
     let a ← nextFq12; let sh ← nextNat; let sq ← nextNat
     let e := (blsX >>> sh) * (if sq == 1 then 2 else 1)
-    expectToks op (strQ12 (Q12.conj (npow a e))) out; pure true
+    expectToks op (strQ12 (Q12.conj (npow a e))) out
+    expectToks "expx (model)" (strQ12 (Impl.expByX sh (sq == 1) a)) out
+    pure true
   | "pairing_sum" =>
     let shape ← next
     let n := if shape == "-" then 0 else shape.length
-    let rec go (k : Nat) (acc : Fq12) : P Fq12 :=
+    let rec go (k : Nat) (i : Nat) (acc : Fq12) (as : List (Aff Fq × Aff Fq2)) (ps : List (Aff Fq × Impl.Prepared Fq)) :
+        P (Fq12 × List (Aff Fq × Aff Fq2) × List (Aff Fq × Impl.Prepared Fq)) :=
       match k with
-      | 0 => pure acc
+      | 0 => pure (acc, as.reverse, ps.reverse)
       | k+1 => do
         let p ← curveG1.rdA; let qq ← curveG2.rdA
-        go k (acc * ateSpec (ptG1 p) (ptG2 qq))
-    let e ← go n 1
-    expectToks op (strQ12 e) out; pure true
+        let acc := acc * ateSpec (ptG1 p) (ptG2 qq)
+        if (shape.toList.getD i 'a') == 'a' then go k (i + 1) acc ((affOf p, affOf qq) :: as) ps
+        else go k (i + 1) acc as ((affOf p, Impl.prepare (affOf qq)) :: ps)
+    let (e, as, ps) ← go n 0 1 [] []
+    expectToks op (strQ12 e) out
+    expectToks "pairing_sum (generated model)" (strQ12 (Impl.pairingProduct as ps)) out
+    pure true
+  | "prepare" =>
+    let qq ← curveG2.rdA
+    let pr := Impl.prepare (affOf qq)
+    let toks := [boolTok pr.infinity, toString pr.coeffs.length] ++ pr.coeffs.flatMap (fun c => strQ2 c.a ++ strQ2 c.b ++ strQ2 c.c)
+    expectToks op toks out
+    if pr.coeffs.length != Gen.Consts.num_coeffs then throw "prepare: number of coefficients differs from num_coeffs"
+    pure true
   | "zp_hash" =>
     let bs ← nextBytes
     expectToks op [toHex 64 ((ofBytesBE bs % 2 ^ 255) % r)] out; pure true
